@@ -181,7 +181,13 @@ func (ex *Exec) scanMods(fr *frame, l *Loop, st *State) *loopMods {
 					}
 				case *ssa.MapUpdate:
 					mt := in.Map.Type().Underlying().(*types.Map)
-					vn, hn, _, _ := ex.mapRegions(st, mt)
+					vn, hn, vs, hs := ex.mapRegions(st, mt)
+					if _, ok := ex.regionSorts[vn]; !ok {
+						ex.regionSorts[vn] = vs
+					}
+					if _, ok := ex.regionSorts[hn]; !ok {
+						ex.regionSorts[hn] = hs
+					}
 					m.get(vn).whole = true
 					m.get(hn).whole = true
 				case *ssa.Send:
